@@ -283,6 +283,22 @@ def _worker_job(key, job, roots, max_paths, deadline, seed, validate_cap, split_
             except (Unsupported, Exception) as e:  # noqa
                 res["validation_errors"].append(dict(what="native run failed: %r" % (e,), inputs=vals, tb=traceback.format_exc()))
 
+    def confirm(name, model):
+        try:
+            return replay_native(h, model_values(model, state["x"].names), name)[0]
+        except BaseException:  # noqa
+            return False
+
+    def blocking_terms(model):
+        out = []
+        for nm, kind in state["x"].names:
+            if kind == "int":
+                t = z3.Int(nm)
+                out.append((t, model.eval(t, model_completion=True)))
+        return out
+
+    eng.confirm = confirm
+    eng.blocking_terms = blocking_terms
     try:
         out = eng.explore(fn, roots=roots, max_paths=max_paths, deadline=deadline, on_path=on_path, stop_on_cex=False)
         x = state["x"]
